@@ -63,6 +63,10 @@ type ClientInfo struct {
 	// Serving selects what the network shows this client: universe and size.
 	Uni  *Universe
 	Size int64
+	// ViewOf, if set, is asked before every remote read which log and size the network shows to the
+	// goroutine that is reading (an equivocating server may answer each connection differently);
+	// it returns nil to leave the client's view as it is.
+	ViewOf func() (*Universe, int64)
 	// per-class occurrence counters
 	occ map[string]int
 	// Ops counts external operations by kind.
@@ -217,6 +221,11 @@ func (o *ops) ReadRemote(path string) ([]byte, error) {
 	defer w.Mu.Unlock()
 	c.Ops["ReadRemote"]++
 	c.RemoteReads[path]++
+	if c.ViewOf != nil {
+		if u, n := c.ViewOf(); u != nil {
+			c.Uni, c.Size = u, n
+		}
+	}
 	data, err := w.Backend.Serve(w, c, path)
 	class := classOfRemote(c, path)
 	if err == nil && class == "net:lookup" {
